@@ -281,12 +281,12 @@ def gen_history(rng, pools, tier):
     # scenario templates: interaction shapes that pure random drawing reaches too rarely.  They only
     # seed the beginning of the history; the random tail follows.
     tmpl = rng.random()
-    if tmpl < 0.30:
+    if tmpl < 0.33:
         L, s0 = rng.choice(strings)
         var = rng.choice([v for v in variants if v] or [draw_settings(rng, langs)])
         P = pools["langs"].get(L) or {}
         refdep = rng.choice((P.get("rel") or [])[:4] + (P.get("relre") or [])[:3] + ["%02d:%02d" % (rng.randrange(24), rng.randrange(60)), s0])
-        if tmpl < 0.12:
+        if tmpl < 0.08:
             # T1 live instance x an equal-but-distinct settings dict used by another entry point
             nslot += 1
             slots[nslot] = {"languages": [L], "settings": copy.deepcopy(var)}
@@ -304,7 +304,28 @@ def gen_history(rng, pools, tier):
                 slots[nslot] = {"languages": [L2], "settings": copy.deepcopy(var)}
                 ops.append({"op": "new_parser", "slot": nslot, "kw": slots[nslot], "clock_us": clock()})
             ops.append({"op": "get_date_data", "slot": 1, "ctor": slots[1], "s": refdep, "clock_us": clock()})
-        elif tmpl < 0.135 and any((pools["langs"].get(l) or {}).get("regional") for l in pools["order"][:60]):
+        elif tmpl < 0.105:
+            # T7 parse() with a (pure, deterministic) language-detection callback: what it detected for one
+            # string must not stick for the next
+            texts = ["12 mars 2021 10:30", "March 12 2021 10:30", "12 marzo 2021", "3. März 2015", "hier", "yesterday"]
+            for tx in rng.sample(texts, rng.choice([2, 3])):
+                kwd = {"detect": True}
+                if rng.random() < 0.3 and var:
+                    kwd["settings"] = copy.deepcopy(var)
+                ops.append({"op": "parse", "s": tx, "kw": kwd, "clock_us": clock()})
+        elif tmpl < 0.13:
+            # T8 the caller reuses ONE settings dict object, editing it between calls; afterwards a
+            # brand-new dict equal to the first version must behave like in a fresh process
+            Lx, sx = rng.choice(strings)
+            key = rng.choice(["SKIP_TOKENS", "DATE_ORDER", "PREFER_LOCALE_DATE_ORDER", "PREFER_DAY_OF_MONTH"])
+            v1, v2 = {"SKIP_TOKENS": (["foo"], ["bar"]), "DATE_ORDER": ("DMY", "MDY"), "PREFER_LOCALE_DATE_ORDER": (True, False), "PREFER_DAY_OF_MONTH": ("first", "last")}[key]
+            first = {key: v1}
+            second = dict(first, **rng.choice([{key: v2}, {"DATE_ORDER": "YMD"}, {"NORMALIZE": False}]))
+            sx2 = rng.choice([sx, "foo " + sx, "02.03.2020", "foo 02/03/2020"])
+            ops.append({"op": "parse", "s": sx2, "kw": {"languages": [Lx], "settings_ref": ["A", first]}, "clock_us": clock()})
+            ops.append({"op": "parse", "s": sx2, "kw": {"languages": [Lx], "settings_ref": ["A", second]}, "clock_us": clock()})
+            ops.append({"op": "parse", "s": sx2, "kw": {"languages": [Lx], "settings": copy.deepcopy(first)}, "clock_us": clock()})
+        elif tmpl < 0.155 and any((pools["langs"].get(l) or {}).get("regional") for l in pools["order"][:60]):
             # T6 a regional variant's own vocabulary must not leak into the base language (or a sibling
             # locale) loaded in the same process, whichever of them is used first
             cands = [l for l in pools["order"] if (pools["langs"].get(l) or {}).get("regional")]
@@ -318,7 +339,7 @@ def gen_history(rng, pools, tier):
             base_call.pop("text" if base_call["op"] == "parse" else "s")
             seq = [reg_call, base_call] if rng.random() < 0.7 else [base_call, reg_call, copy.deepcopy(base_call)]
             ops.extend(seq)
-        elif tmpl < 0.15:
+        elif tmpl < 0.19:
             # T5 'tl' is the only language without a date order of its own: whatever order applies to it must
             # come from the call's own settings, never from whoever parsed Tagalog first in this process
             a_, b_ = rng.sample(range(1, 13), 2)
@@ -334,7 +355,7 @@ def gen_history(rng, pools, tier):
                 if st_:
                     kw_["settings"] = st_
                 ops.append({"op": "parse", "s": num, "kw": kw_, "clock_us": clock()})
-        elif tmpl < 0.17:
+        elif tmpl < 0.225:
             # T4 a live instance on which a call raises *inside* a parser (not a ValueError), then an
             # order-sensitive call on the same instance; 'tl' first in the given order has no date order of its own
             Lx = rng.choice([l for l in langs if l not in ("en", "tl")] or ["fr"])
@@ -349,7 +370,7 @@ def gen_history(rng, pools, tier):
             dec = (Px["months"][11] or ["12"])[0]
             ops.append({"op": "get_date_data", "slot": nslot, "ctor": slots[nslot], "s": rng.choice(["1 %s 0001 00:00 +05:00" % jan, "31 %s 9999 23:59 -0500" % dec]), "clock_us": clock()})
             ops.append({"op": "get_date_data", "slot": nslot, "ctor": slots[nslot], "s": num, "clock_us": clock()})
-        elif tmpl < 0.22:
+        elif tmpl < 0.275:
             # T2 custom-settings traffic, then default-settings calls that read the module default
             for _ in range(rng.choice([1, 2])):
                 Lx, sx = rng.choice(strings)
@@ -447,9 +468,35 @@ def gen_history(rng, pools, tier):
 # --------------------------------------------------------------------------
 
 
+def simple_language_detector(text, confidence_threshold):
+    """A deterministic detection callback a caller might pass (a pure function of the text)."""
+    t = text.lower()
+    if any(w in t for w in ("mars", "janvier", "juillet", "hier")):
+        return ["fr"]
+    if any(w in t for w in ("märz", "gestern", "juli ")):
+        return ["de"]
+    if any(w in t for w in ("marzo", "ayer")):
+        return ["es"]
+    return ["en"]
+
+
+_REFS = {}  # caller-owned settings dicts that live across the calls of one history
+
+
 def _decode_kw(kw):
     out = {}
     for k, v in kw.items():
+        if k == "detect":
+            out["detect_languages_function"] = simple_language_detector
+            continue
+        if k == "settings_ref":
+            # the caller keeps ONE dict object, edits it between calls and passes it again
+            name, content = v
+            d = _REFS.setdefault(name, {})
+            d.clear()
+            d.update(dec_value(content))
+            out["settings"] = d
+            continue
         if k == "__settings_instance__":
             out["settings"] = v  # built by the caller beforehand (C20: before the threads start)
         elif k == "settings_obj" and "__settings_instance__" in kw:
@@ -462,6 +509,9 @@ def _decode_kw(kw):
         else:
             out[k] = dec_value(v) if k == "settings" else copy.deepcopy(v)
     return out
+
+
+_KEPT_EXCEPTIONS = []
 
 
 def exec_op(op, slots, keep=None):
@@ -479,7 +529,7 @@ def exec_op(op, slots, keep=None):
     clk.set(op["clock_us"], ["frozen"])
     world.refresh()
     kw = _decode_kw(op.get("kw", {}))
-    snap = copy.deepcopy({k: v for k, v in kw.items() if not (k == "settings" and ("settings_obj" in op.get("kw", {}) or "__settings_instance__" in op.get("kw", {})))})
+    snap = copy.deepcopy({k: v for k, v in kw.items() if k != "detect_languages_function" and not (k == "settings" and ("settings_obj" in op.get("kw", {}) or "__settings_instance__" in op.get("kw", {})))})
     extra = None
     try:
         if kind == "parse":
@@ -516,6 +566,7 @@ def exec_op(op, slots, keep=None):
             keep.append((val, copy.deepcopy(out[1])))
     except Exception as e:  # noqa
         out = ["exc", type(e).__name__]
+        _KEPT_EXCEPTIONS.append(e)  # a caller may keep the exception (log it, re-raise later): it stays alive
     kw_cmp = {k: v for k, v in kw.items() if k in snap}
     mutated = enc_value(kw_cmp) != enc_value(snap) or repr(kw_cmp) != repr(snap)
     if extra is not None and extra != op.get("date_formats"):
@@ -544,6 +595,7 @@ def run_history(p):
 
     world.install()
     world.set_zone(p["zone"])
+    _REFS.clear()
     slots = {}
     outs = []
     evictions = 0
@@ -627,7 +679,7 @@ def oclass(o):
 
 def settings_of(op):
     kw = op.get("kw") or op.get("ctor") or {}
-    return kw.get("settings") or kw.get("settings_obj") or {}
+    return kw.get("settings") or kw.get("settings_obj") or (kw.get("settings_ref") or [None, {}])[1] or {}
 
 
 def langs_of(op):
